@@ -167,3 +167,14 @@ CHECKS["C14"] = dict(
           "boundary, out-of-order arrival, and flushes after each insert with probability 0, 1/8, 1/3 or 1/2 (so that >= 10 data-carrying flushes, i.e. a "
           "truncating flush, happen in about half of the cases: counted in input_distribution); queries mid-history and at the end: raw view with memstore, a "
           "grouped/ranged query, and the raw disk-only view after a final flush. non-trivial: at least one flush"))
+
+CHECKS["C15"] = dict(
+    stages=[dict(sub="dbalt", quick=64, thorough=3200, shrink=["ops"], parallel=16, shards=16)],
+    assumptions=_DB_ASSUME[:4] + ["exact quiescence is awaited before every ApplySchema, flush, reopen and query, so each point is processed under a known definition",
+                                  "the definitions of one history never contain two fields with the same expression string (known finding duplicate-field-definition)"],
+    trusted=_DB_TRUSTED,
+    what_fails="after altering the table a retained field changed its stored values, an added (or re-added) field did not start empty, or a new WHERE was applied to points processed before the change",
+    rule=("histories of 12-41 operations: inserts, FlushAll, clean close/reopen, and ApplySchema with a new definition that drops fields "
+          "(each with probability 1/4), adds fresh fields, re-adds previously dropped fields (same name and expression), permutes the "
+          "order and in 1/3 of the cases changes or removes the WHERE; SELECT * after half of the alterations and at the end, compared with "
+          "the reference in which every field aggregates the points accepted since it was (last) added. non-trivial: >= 1 alteration and >= 3 points"))
